@@ -28,11 +28,11 @@ type Item struct {
 	Elems  []*Item
 }
 
-func S(b []byte) *Item     { return &Item{Str: append([]byte{}, b...)} }
-func L(e ...*Item) *Item   { return &Item{IsList: true, Elems: e} }
-func U(v uint64) *Item     { return S(minBE(v)) }
-func B(v *big.Int) *Item   { return S(v.Bytes()) }
-func (it *Item) Len() int  { return len(it.Elems) }
+func S(b []byte) *Item       { return &Item{Str: append([]byte{}, b...)} }
+func L(e ...*Item) *Item     { return &Item{IsList: true, Elems: e} }
+func U(v uint64) *Item       { return S(minBE(v)) }
+func B(v *big.Int) *Item     { return S(v.Bytes()) }
+func (it *Item) Len() int    { return len(it.Elems) }
 func (it *Item) IsStr() bool { return !it.IsList }
 
 func minBE(v uint64) []byte {
@@ -111,11 +111,11 @@ func (it *Item) String() string {
 
 // Rejection reasons (also used as signature suffixes by the check).
 const (
-	RTruncated      = "truncated"             // header or content longer than what is there
-	RTrailing       = "trailing-bytes"        // bytes after the single top-level value
-	RSizeLeadZero   = "size-leading-zero"     // long-form length with a leading zero byte
+	RTruncated      = "truncated"         // header or content longer than what is there
+	RTrailing       = "trailing-bytes"    // bytes after the single top-level value
+	RSizeLeadZero   = "size-leading-zero" // long-form length with a leading zero byte
 	RSizeSmall      = "long-form-size-below-56"
-	RSingleByte     = "single-byte-prefixed"  // 0x81 xx with xx < 0x80
+	RSingleByte     = "single-byte-prefixed" // 0x81 xx with xx < 0x80
 	RElemTooLarge   = "element-exceeds-list"
 	RExpectedString = "expected-string"
 	RExpectedList   = "expected-list"
@@ -252,14 +252,14 @@ type Schema struct {
 	Tail   *Schema
 }
 
-func Uint(bits int) *Schema           { return &Schema{Kind: KUint, Bits: bits} }
-func BigInt() *Schema                 { return &Schema{Kind: KBigInt} }
-func Bool() *Schema                   { return &Schema{Kind: KBool} }
-func Bytes() *Schema                  { return &Schema{Kind: KBytes} }
-func ByteArray(n int) *Schema         { return &Schema{Kind: KByteArray, N: n} }
-func ListOf(e *Schema) *Schema        { return &Schema{Kind: KList, Elem: e} }
+func Uint(bits int) *Schema            { return &Schema{Kind: KUint, Bits: bits} }
+func BigInt() *Schema                  { return &Schema{Kind: KBigInt} }
+func Bool() *Schema                    { return &Schema{Kind: KBool} }
+func Bytes() *Schema                   { return &Schema{Kind: KBytes} }
+func ByteArray(n int) *Schema          { return &Schema{Kind: KByteArray, N: n} }
+func ListOf(e *Schema) *Schema         { return &Schema{Kind: KList, Elem: e} }
 func ArrayOf(n int, e *Schema) *Schema { return &Schema{Kind: KArray, N: n, Elem: e} }
-func Struct(f ...*Schema) *Schema     { return &Schema{Kind: KStruct, Fields: f} }
+func Struct(f ...*Schema) *Schema      { return &Schema{Kind: KStruct, Fields: f} }
 func StructTail(tail *Schema, f ...*Schema) *Schema {
 	return &Schema{Kind: KStruct, Fields: f, Tail: tail}
 }
